@@ -344,6 +344,62 @@ def family_detached():
     )]
 
 
+
+def close_order_probe(ctx):
+    """the lock must outlive every change close() makes to the directory: run open / commits / close under the
+    recorder and require that no write, create, truncate, rename or unlink inside the database directory follows
+    the release of the LOCK descriptor (fsyncs and closes may follow).  Returns (violations, n_traces)."""
+    import shutil
+    from . import crash as K
+    viol, n = [], 0
+    base = os.path.join(K.WORK, "C19lock")
+    shutil.rmtree(base, ignore_errors=True)
+    for ti, opts in enumerate(["lc=2,foc=1", "lc=2,foc=1,vlog=1,vth=0", "lc=2,foc=1,ver=1,vlog=1,vth=0,idx=1", "lc=2,foc=0", "lc=2,foc=1,mem=4096"]):
+        root = os.path.join(base, "t%d" % ti, "root")
+        os.makedirs(root)
+        lines = ["e2 newat %s/db" % root, "e2 open " + opts]
+        for j in range(6):
+            lines += ["e2 begin %d rw" % (j + 1), "e2 set %d 6b%02x rep:900:%d" % (j + 1, j, j), "e2 commit %d" % (j + 1)]
+        lines += ["e2 mark closing", "e2 close"]
+        out, log = K.trace(lines, root)
+        n += 1
+        lockfds, released = set(), None
+        dbp = root + "/db/"
+        mark = max([i for i, l in enumerate(log) if l.startswith("M closing")] or [0])
+        openfd = {}
+        for i, l in enumerate(log):
+            t = l.split()
+            if t[0] == "O":
+                openfd[t[1]] = t[3]
+                if t[3].endswith("/db/LOCK"):
+                    lockfds.add(t[1])
+            elif t[0] == "P" and t[1] in lockfds:
+                lockfds.add(t[2])
+            elif t[0] == "C" and t[1] in lockfds:
+                lockfds.discard(t[1])
+                if not lockfds and i > mark:
+                    released = i
+            elif released is not None and i > released:
+                bad = None
+                if t[0] in ("W", "T") and openfd.get(t[1], "").startswith(dbp):
+                    bad = "%s on %s" % (t[0], openfd.get(t[1]))
+                elif t[0] in ("R", "U", "D") and t[1].startswith(dbp):
+                    bad = l[:120]
+                elif t[0] == "O" and t[3].startswith(dbp) and ("c" in t[2] or "t" in t[2]):
+                    bad = l[:120]
+                if bad:
+                    text = ["# property=C19", "# oracle: close() released the directory lock (log line %d) and then still changed the directory (log line %d: %s):"
+                            " a second opener is admitted while the first instance is still writing" % (released, i, bad), "# options: " + opts]
+                    text += ["> " + x for x in lines]
+                    text += ["# recorded operations from the lock release on:"] + ["#   %d %s" % (k, log[k][:140]) for k in range(released, min(len(log), i + 6))]
+                    viol.append(("close() changes the directory after releasing the lock (options %s): %s" % (opts, bad), "\n".join(text) + "\n"))
+                    break
+        if released is None and out and out[-1] == "ok":
+            viol.append(("recorder saw no release of the LOCK descriptor during close (options %s)" % opts, "\n".join(["# property=C19"] + ["> " + x for x in lines]) + "\n"))
+    shutil.rmtree(base, ignore_errors=True)
+    return viol, n
+
+
 def explore(ctx):
     rng = C.Rng(ctx["seed"] * 7919 + 19)
     tier = ctx["tier"]
@@ -403,6 +459,9 @@ def explore(ctx):
     res["known"] = sorted("%s [class %s; replay: %s]" % (res["kf"][c], c, paths[c]) for c in paths)
     # keep the shortest violation first
     res["violations"].sort(key=lambda v: len(v[1]))
+    pv, pn = close_order_probe(ctx)
+    res["violations"] += pv
+    stats["evaluations"] += pn
     fam = {}
     for s in scripts:
         fam[s[2]] = fam.get(s[2], 0) + 1
